@@ -3,13 +3,15 @@ CONSTANTS XKinds = {"pdep"}
           YKinds = {"lit","none"}
           Aliases = {"none","pos","neg"}
           Delays = {"none","lit","par","par_lit","par_par2","sum"}
-          Opts = {"base","aliases","rcv","ev","eva","evb"}
+          Opts = {"base","aliases","rcv","ev","eva","evb","rpv"}
+          FKinds = {"none","lit","pdep"}
           Typed = {TRUE,FALSE}
           Strs = {TRUE,FALSE}
           Outs = {TRUE,FALSE}
           SwapDepClasses = FALSE
           ForgetOutputs = FALSE
           DurDepsOffByOne = FALSE
+          ConstMXNotMX = FALSE
           TruthyOptions = FALSE
 INIT Init
 NEXT Next
